@@ -141,6 +141,7 @@ class VerilogTransformer(Transformer):
                         c.io_nodes[positions[name]] = n
                     if sd.kind == 'input':
                         Line(c, n, Node(c, name))
+        pairs = []
         for target, source in assignments:  # pass 1.5: process signal assignments
             target_sigs = []
             if not isinstance(target, list): target = [target]
@@ -156,7 +157,12 @@ class VerilogTransformer(Transformer):
                     source_sigs += sig_decls[s].names
                 else:
                     source_sigs.append(s)
-            for t, s in zip(target_sigs, source_sigs):
+            pairs += zip(target_sigs, source_sigs)
+        progress = True
+        while len(pairs) > 0 and progress:  # assignments may appear in any order: repeat until no more signals become driven
+            progress = False
+            remaining = []
+            for t, s in pairs:
                 if t in c.forks:
                     assert s not in c.forks, 'assignment between two driven signals'
                     Line(c, c.forks[t], Node(c, s))
@@ -167,6 +173,11 @@ class VerilogTransformer(Transformer):
                     cnode = Node(c, f'__const{s[3]}_{const_count}__', f'__const{s[3]}__')
                     const_count += 1
                     Line(c, cnode, Node(c, t))
+                else:
+                    remaining.append((t, s))
+                    continue
+                progress = True
+            pairs = remaining
         for stmt in args[2:]:  # pass 2: connect signals to readers
             if isinstance(stmt, Instantiation):
                 for p, s in stmt.pins.items():
